@@ -53,11 +53,17 @@ def run(ctx):
         "clone list order equals the model's. non-trivial/distinct as C01"
     )
     ctx.budget_s = ctx.budget(900, 100)
+    _hist.fixed_histories(ctx, out, judge, _hist.STALE_HANDLE_HISTORIES)
     n = 4 if ctx.thorough else 3
     _hist.exhaustive_single_ops(ctx, out, judge, max_nodes=n, alphabet=[0, 1, 6],
                                 ops_of=lambda impl, ti: [o for o in _hist.all_single_ops(impl, ti, labels=[0, 6, 2]) if o["op"] in ("w.setdata", "w.remove", "w.move", "w.removechildren", "w.del")],
                                 label_limit=8 if ctx.thorough else 3)
     _hist.history_campaign(ctx, out, judge, n_hist=1500 if ctx.thorough else 160, n_steps=100 if ctx.thorough else 25, profiles=PROFILES, labels_sets=LABELS)
+    # invalid arguments outside the model's alphabet (unhashable ids, a node_id that is in use, ...): the call is refused
+    # and the lookup structures are what they were (campaign and oracle of props/c13.py)
+    from props import c13 as C13
+
+    C13.unhashable_campaign(ctx, out, [([(0, [(1, []), (0, [])]), (1, [])], False), ([((0, "a"), [((1, "b"), [])]), ((1, "a"), [])], True)])
     return out
 
 
